@@ -12,7 +12,7 @@ only = set(sys.argv[3].split(",")) if len(sys.argv) > 3 else None
 def run(m):
     f = os.path.join(d, m["file"])
     env = dict(os.environ, TRY_LINES="6", TRY_TIMEOUT="1500")
-    p = subprocess.run(["/verif/bin/try_seed.sh", f, m["property"], "quick", "1"], capture_output=True, text=True, env=env)
+    p = subprocess.run(["/verif/bin/try_seed.sh", f, m["property"], "quick", os.environ.get("MUT_SEED", "1")], capture_output=True, text=True, env=env)
     out = p.stdout + p.stderr
     rc = p.returncode
     conj = [l.strip()[:220] for l in out.splitlines() if l.strip().startswith("what:")]
